@@ -188,7 +188,13 @@ impl TransactionGroup {
                 "Too many instructions for a signle transaction",
             ));
         }
-        let size = group.transaction_size(true, Some(&self.luts), Default::default());
+        // Measure with the same options (memo, extra compute units) that are used when the
+        // transaction is built, otherwise the built transaction may exceed the limit.
+        let size = group.transaction_size(
+            true,
+            Some(&self.luts),
+            self.options.instruction_options(&Default::default()),
+        );
         if size > self.options.max_transaction_size {
             return Err(crate::Error::AddTransaction(
                 "Transaction size exceeds the `max_transaction_size` config",
